@@ -201,7 +201,7 @@ MUTANTS = {
                           "row checks consulted in alphabetical instead of declaration order"),
     "c20_cleanup_skipped_on_failure": (["C20"], "cutplace/validio.py",
                                        "            finally:\n                for check in self.cid.check_map.values():\n                    check.cleanup()",
-                                       "            for check in self.cid.check_map.values():\n                check.cleanup()",
+                                       "            except Exception:\n                raise\n            else:\n                for check in self.cid.check_map.values():\n                    check.cleanup()",
                                        "cleanup skipped when an end-of-data check fails"),
     "c20_length_after_strip": (["C20", "C14", "C03"], "cutplace/fields.py",
                                "        self.validate_length(value)\n        if possibly_stripped_value:",
@@ -232,6 +232,7 @@ def main():
             if text.count(old) != 1:
                 print("SKIP %s: anchor found %d times" % (name, text.count(old)))
                 continue
+            compile(text.replace(old, new), full, "exec")  # a mutant that does not compile tests nothing
             open(full, "w", encoding="utf-8").write(text.replace(old, new))
             diff = subprocess.run(["git", "-C", tree, "diff"], stdout=subprocess.PIPE, text=True).stdout
             subprocess.run(["git", "-C", tree, "checkout", "--", "."], check=True)
